@@ -5,7 +5,7 @@ from .. import common, cfgmc, pki, c11point
 
 PROP = 'C11'
 PAYLOADS = ['get', 'chunked', 'two', 'big']
-PACKINGS = ['whole', 'split_header', 'split_body', 'split_record']
+PACKINGS = ['whole', 'split_header', 'split_body', 'split_record', 'early_hello']
 EXPECT = {
     'get': [('GET', '/a?x=1', '')],
     'chunked': [('POST', '/p', 'abcde')],
@@ -26,7 +26,8 @@ def points(tier):
             ('origin.test', '127.0.0.1', '[::1]'), ('trusted', 'selfsigned', 'wrongname', 'expired'),
             (False, True), (False, 'only', 'first', 'last', 'bystander_only'), ('cold', 'warm')):
         if tier == 'quick':
-            combos = [(PAYLOADS[i % 4], PACKINGS[(i // 4 + i) % 4])]
+            # rotation chosen so that every (dimension value, packing) and (payload, packing) pair occurs
+            combos = [(PAYLOADS[(i + i // 7) % 4], PACKINGS[(2 * i + i // 20) % 5])]
         else:
             combos = list(itertools.product(PAYLOADS, PACKINGS))
         i += 1
@@ -120,7 +121,7 @@ def run(tier):
             rule='CONNECT host {DNS name, IPv4 literal, IPv6 literal} x origin certificate {trusted, self-signed, wrong name, '
                  'expired} x --insecure-tls-interception x plugin list {none, opt-out only, opt-out then bystander, bystander then opt-out, bystander only} x certificate cache {cold, warm} = 240 points; '
                  'thorough additionally x inner payload {GET, chunked POST, two requests, 600 kB down + 600 kB up} x inner packing {whole, split in header, '
-                 'split in body, one TLS record cut into three TCP segments}; quick rotates payload/packing over the 240 points')
+                 'split in body, one TLS record cut into three TCP segments, ClientHello coalesced with the CONNECT head (opted-out tunnels)}; quick rotates payload/packing over the 240 points')
     rep.assumptions.append('handshakes are blocking calls inside the SUT: configurations and inputs are enumerated, '
                            'interleavings inside the handshakes are not')
     if tier == 'quick':
